@@ -326,6 +326,7 @@ class Exec:
         self.queries = 0
         self.paths = []
         self.deadline = None
+        self.rng = None
 
     # ------------------------------------------------------------------ solver
     def feasible(self, pc):
@@ -679,6 +680,8 @@ class Exec:
             return "done"          # infeasible on both sides (pc contradictory)
         if len(outs) == 1 and outs[0] is st:
             return None
+        if self.rng is not None and len(outs) == 2 and self.rng.random() < 0.5:
+            outs = [outs[1], outs[0]]     # seeded sibling order: a budgeted run explores a different prefix per seed
         for o in outs:
             work.append(o)
         return "forked"
